@@ -249,20 +249,27 @@ def check(prop, tier, replay=None):
 # mode "final": compare final dates with the terminal state (C07: equality with the reference is the property);
 # mode "trace": every project of the universe is traced and judged by the property predicates of TraceSched
 MC_PLAN = {
+    "C02": [("MC_Cal", "MC_Cal.cfg", "MC_CalFull.cfg", "+2w", "trace")],
     "C07": [("MC_Core", "MC_Core.cfg", "MC_CoreFull.cfg", "+1w", "final"), ("MC_Tree", "MC_Tree.cfg", "MC_TreeFull.cfg", "+1w", "final")],
     "C10": [("MC_Tree", "MC_Tree.cfg", "MC_TreeFull.cfg", "+1w", "trace")],
     "C01": [("MC_SubSlot", None, "MC_SubSlot.cfg", "+1w", "trace"), ("MC_Team", None, "MC_Team.cfg", "+1w", "trace")],
     "C03": [("MC_SubSlot", None, "MC_SubSlot.cfg", "+1w", "trace"), ("MC_Alt", "MC_Alt.cfg", "MC_AltFull.cfg", "+1w", "trace"),
             ("MC_Team", None, "MC_TeamFull.cfg", "+1w", "trace")],
     "C06": [("MC_SubSlot", None, "MC_SubSlot.cfg", "+1w", "trace"), ("MC_Alap", None, "MC_Alap.cfg", "+1w", "trace")],
-    "C08": [("MC_Alap", None, "MC_Alap.cfg", "+1w", "trace"), ("MC_Core", None, "MC_Core.cfg", "+1w", "trace")],
+    "C08": [("MC_Alap", None, "MC_Alap.cfg", "+1w", "trace"), ("MC_Core", None, "MC_Core.cfg", "+1w", "trace"),
+            ("MC_Cal", None, "MC_CalFull.cfg", "+2w", "trace")],
     "C04": [("MC_Alap", None, "MC_AlapFull.cfg", "+1w", "trace"), ("MC_Tree", None, "MC_TreeFull.cfg", "+1w", "trace")],
     "C05": [("MC_Limits", None, "MC_Limits.cfg", "+2w", "trace")],
 }
 
 
+# universes whose week is not the week of 2024-01-01 (a Monday 00:00 is required: mow = 0)
+UNIVERSE_START = {"MC_Cal": (2024, 3, 4)}        # the week in which America/New_York switches to DST (Sunday 07:00 UTC)
+
+
 def run_universes(run, scr, prop, tier):
     from harness import e2
+    from datetime import datetime
     for module, qcfg, tcfg, length, mode in MC_PLAN[prop]:
         cfg = qcfg if tier == "quick" else tcfg
         if cfg is None:
@@ -275,7 +282,7 @@ def run_universes(run, scr, prop, tier):
         if not terms:
             raise MachineryError("%s produced no terminal states" % module)
         if mode == "final":
-            n, mism = e2.replay_terminals(scr, terms, length=length)
+            n, mism = e2.replay_terminals(scr, terms, length=length, start=datetime(*UNIVERSE_START.get(module, (2024, 1, 1))))
             run.cov["traces_validated_against_impl"] += n
             run.cov["evaluations"] += n
             run.notes.setdefault("universes", []).append({"module": module, "projects": n, "states": res.distinct, "disagree": len(mism)})
@@ -292,8 +299,9 @@ def run_universes(run, scr, prop, tier):
             jobs = []
             for i, t in enumerate(terms):
                 A = t["project"]
-                gen_abs = {"tasks": A["tasks"], "res": [dict(r, tzname="") for r in A["res"]], "vac": A["vac"], "gleaves": A["gleaves"], "alap": A["alap"]}
-                jobs.append({"id": "%s-%s-u%06d" % (prop, module, i), "text": gen.render_abstract(A, length=length), "scenarios": [0], "abstract": gen_abs})
+                gen_abs = {"tasks": A["tasks"], "res": [dict(r, tzname=r.get("tzname", "")) for r in A["res"]], "vac": A["vac"], "gleaves": A["gleaves"], "alap": A["alap"]}
+                jobs.append({"id": "%s-%s-u%06d" % (prop, module, i), "scenarios": [0], "abstract": gen_abs,
+                             "text": gen.render_abstract(A, length=length, start=datetime(*UNIVERSE_START.get(module, (2024, 1, 1))))})
             recs = e1.run_impl(scr, jobs, nproc=14)
             vs, res2 = e1.validate(recs)
             run.add_tlc(res2)
